@@ -465,7 +465,9 @@ def _spec(case, out):
             if st["acts"] >= 3:
                 feats.add("slot-reuse(>=3 activations)")
         if o.startswith("err:"):
-            bad.append("[C12-unmatched] cycle %d: the driver reports %r but the key selects a branch" % (now - 1, o))
+            bad.append("[C12-%s] cycle %d: the run fails (%r) although %s" %
+                       ("unmatched" if o.startswith("err:no-branch") else "follows", now - 1, o,
+                        "the key selects a branch" if tick["k"] else "no key ticked"))
             st["dead"] = True
             continue
         if o == "idle":
